@@ -15,7 +15,9 @@ META = {
                    'for the width of the millisecond reference and for monotone writes outside syncNow.',
     'decided': 'on every stated schedule each reading equals T + floor((m - m0) / 1000); an unset clock reads the sentinel; setting '
                'the sentinel changes nothing; a repeated set re-bases the millisecond reference; setNow behaves like syncNow and '
-               'writes the backup clock; mPrevMillis is an unsigned 16-bit field; monotone writes outside syncNow',
+               'writes the backup clock; the first set of a fresh clock (built by its own constructor) takes effect whatever value it sets; the '
+               'millisecond reference is an unsigned 16-bit value (a member, or the one narrow integer of a small value type around it); '
+               'outside syncNow() the seconds are never assigned, decreased or incremented by a non-positive constant',
     'not_decided': 'schedules outside the stated family (gaps of 64,536 ms or more are outside the documented contract); real time',
     'assumptions': ['clang 14 parser (host: unsigned long is 64-bit; the rule looks only at the 16-bit conversions)'],
 }
@@ -84,8 +86,8 @@ def run(cfg):
     R.rule('R1', 'after a set at counter m0 every reading at counter m is T + floor((m - m0) / 1000): getNow/syncNow interpreted on polling schedules incl. 16- and 32-bit wrap-around', floor=2)
     R.rule('R2', 'the millisecond reference is an unsigned 16-bit field (the 64,536 ms polling bound depends on it)', floor=1)
     R.rule('R3', 'an unset clock reads the sentinel; setting the sentinel changes nothing; setNow() sets like syncNow()', floor=3)
-    R.rule('R4', 'a repeated set re-bases the millisecond reference; a fresh clock holds the sentinel and is not initialised', floor=2)
-    R.rule('R5', 'outside syncNow() the seconds counter is only incremented by a positive constant', floor=1)
+    R.rule('R4', 'a repeated set re-bases the millisecond reference; the first set of a fresh clock takes effect whatever value it sets', floor=2)
+    R.rule('R5', 'outside syncNow() the seconds counter is only added to (by a positive constant, or by a computed amount whose sign R1 decides)', floor=1)
 
     def ob(rid, c, loc, ok, msg, detail=None):
         R.instance(rid, c, loc)
